@@ -1,6 +1,6 @@
 """C06 — UID uniqueness (store level and through both front ends)."""
 import json
-from bodies import Tokens
+from bodies import Tokens, vevent
 from storefam import gen_many, run_templates, replay_store
 from httpfam import run_http_templates
 
@@ -16,7 +16,20 @@ def run(chk):
     toks = Tokens()
     n = 14 if chk.tier == "quick" else 200
     tmpls = gen_many(chk, toks, n, 25 if chk.tier == "quick" else 40, PROFILE)
-    run_templates(chk, tmpls, toks, PREFIXES)
+    # deterministic probes, run first: a UID changes hands while the other of two long-lived store objects
+    # (two workers of one deployment) looks away — by delete + create, and by an overwrite with another UID
+    ua, ub, ux = (toks.tok(vevent("probe-u", summary="holder %d" % i)) for i in (1, 2, 3))
+    other = toks.tok(vevent("probe-other", summary="other"))
+    changed = toks.tok(vevent("probe-changed", summary="holder 1 with a new uid"))
+    P = lambda n, t: ("put", n, "text/calendar", t, "none")
+    probes = [
+        [P("a.ics", ua), P("x.ics", other), ("switch",), ("del", "a.ics", "none"), P("b.ics", ub), ("switch",),
+         P("c.ics", ux), ("restart",), P("d.ics", ux)],
+        [P("z.ics", ua), P("x.ics", other), ("switch",), P("z.ics", changed), P("b.ics", ub), ("switch",),
+         P("c.ics", ux), P("z.ics", ux)],
+        [P("a.ics", ua), ("del", "a.ics", "none"), P("b.ics", ub), P("a.ics", ux), ("del", "b.ics", "none"), P("a.ics", ux)],
+    ]
+    run_templates(chk, probes + tmpls, toks, PREFIXES)
     # the same property through the server: PUT and POST (add-member, content types with parameters)
     run_http_templates(chk, Tokens(), 4 if chk.tier == "quick" else 40, 30, "mixed", PREFIXES)
 
